@@ -215,7 +215,7 @@ Qed.
 Theorem write_vtt_c_ok d so ro : write_vtt_c d so ro = write_vtt d so ro.
 Proof.
   unfold write_vtt_c, write_vtt. destruct (vd_items d) as [|it r] eqn:Ei; [reflexivity|]. cbn [length Nat.eqb].
-  assert (Ets : (if is_some (vd_tsmap d) then do m <- deref (vd_tsmap d) 482; Ok ([10] ++ tsmap_string m) else Ok []) =
+  assert (Ets : (if is_some (vd_tsmap d) then do m <- deref (vd_tsmap d) 483; Ok ([10] ++ tsmap_string m) else Ok []) =
                 Ok (match vd_tsmap d with Some m => [10] ++ tsmap_string m | None => [] end)).
   { destruct (vd_tsmap d); reflexivity. }
   rewrite Ets, styles_ok, regions_bytes_ok, vitems_bytes_ok. cbn [bind]. unfold slice_to.
